@@ -32,8 +32,8 @@ DEMOS = {
     "C10-M2": (["cp $M/demo/c10_demo_*_test.go ."], "go test -vet=off -count=1 -run TestC10Demo ."),
     "C11-M1": (["cp $M/demo/watchers_demo_test.go.txt tests/correctable/watchers_demo_test.go"], "go test -vet=off -count=1 -run TestDemoTwoWatchersSameLevel ./tests/correctable/"),
     "C11-M2": (["cp $M/demo/ctxend_demo_test.go.txt tests/correctable/ctxend_demo_test.go"], "go test -vet=off -count=1 -run TestDemoContextEnds ./tests/correctable/"),
-    "C12-M1": (["cp $M/demo/close_queued_test.go tests/dummy/"], "go test -vet=off -count=1 -run TestCloseReleasesQueuedCalls ./tests/dummy/"),
     "C12-M2": (["cp $M/demo/close_neverconnected_test.go tests/dummy/"], "go test -vet=off -count=1 -run TestCloseReleasesNeverConnectedNode ./tests/dummy/"),
+    "C12-M3": inplace(1, "c12demo"),
     "C13-M1": (["cp $M/demo/_copy_to_worktree_root/*.go ."], "go test -vet=off -count=1 -run TestC13 ."),
     "C13-M2": (["cp $M/demo/_copy_to_worktree_root/*.go ."], "go test -vet=off -count=1 -run TestC13 ."),
     "C14-M1": (["cp $M/demo/c14_operand_alias_test.go ."], "go test -vet=off -count=1 -run TestC14 ."),
